@@ -35,6 +35,10 @@ REL_SLACKQ = 8
 
 SPACES_2D = ['rn2', 'rnw2', 'discrH', 'discr2', 'power1', 'pspace1']
 SPACES_BIG = ['rn3', 'discr3', 'power2', 'pspace2']
+# WEIGHTED power spaces ProductSpace(X, m, weighting=...): array weighting [1, 4], constant weighting 4.0, weights < 1
+# (abstract kind "wpower": the component weights enter the inner product AND the point-wise norms of the vector-field
+# functionals, so the expectation changes - the axis lives in the specification, MC_FuncMachine!SpaceOf)
+SPACES_W = ['wpowerA', 'wpowerC', 'wpowerQ']
 
 
 # ----------------------------------------------------------------------------- numbers
@@ -153,8 +157,15 @@ def fixq(v):
 
 
 # ----------------------------------------------------------------------------- spaces
-def sp_desc(kind, m, n, W):
-    return {'kind': kind, 'm': m, 'n': n, 'W': [qj(Fraction(w)) for w in W]}
+def sp_desc(kind, m, n, W, cw=None):
+    d = {'kind': kind, 'm': m, 'n': n, 'W': [qj(Fraction(w)) for w in W]}
+    if kind == 'wpower':
+        d['cw'] = [qj(Fraction(c)) for c in cw]
+    return d
+
+
+def is_vf(kind):
+    return kind in ('power', 'wpower')
 
 
 def axes_of(n, layout):
@@ -196,6 +207,15 @@ def build_space(sp, layout=0):
         return _discr(shape, W[0])
     if kind == 'power':
         return _discr(shape, W[0]) ** m
+    if kind == 'wpower':
+        # W[(k-1)n+i] = cw[k] * cell volume ; equal component weights are spelled as a CONSTANT weighting on the
+        # even layouts and as an array on the odd ones
+        cw = frv(sp['cw'])
+        base = _discr(shape, W[0] / cw[0])
+        if all(c == cw[0] for c in cw) and layout % 2 == 0:
+            return odl.ProductSpace(base, m, weighting=float(cw[0]))
+        return odl.ProductSpace(base, m, weighting=[float(c) for c in cw] if layout != 3 else
+                                np.array([float(c) for c in cw]))
     if kind == 'pspace':
         return odl.ProductSpace(_tensor(shape, W[0]), _discr(shape, W[n]))
     raise ValueError(kind)
